@@ -14,10 +14,10 @@ TRUSTED = ['model: coq/Ck/CkFull.v (transcription of Downtime::Start/IsInEffect/
            'Checkable::NotifyDowntime*); agreement with the code is re-established on every run by differential execution',
            'ocaml/ops_c5.ml rebuilds the per-step records (downtimes before/after, events) from script + implementation trace',
            'hook H1 (virtual clock) in lib/base/utility.cpp; the start timer and the per-downtime clean-up timer are invoked by the script, their latency is an input',
-           'oracle checks 1-9 and 11 (attributes/trigger time never change, no trigger outside the window, removal events, DowntimeEnd count, '
-           'ownership, clean-up, trigger on result, trigger on add, DowntimeStart count, depth) are proved to hold on every step of every model run '
-           'without a finding signature (C05_oracle_accepts_model); checks 10 (an OnDowntimeTriggered event for everything that became triggered) and 12 (chains, all levels; '
-           'directly chained downtimes are proved, C05_chain) are validated against the model on the generated population only']
+           'oracle checks 1-11 (attributes/trigger time never change, no trigger outside the window, removal events, DowntimeEnd count, ownership, '
+           'clean-up, trigger on result, trigger on add, DowntimeStart count, OnDowntimeTriggered events, depth) are proved to hold on every step of '
+           'every model run without a finding signature (C05_oracle_accepts_model); check 12 (chains at every level; directly chained downtimes '
+           'are proved, C05_chain) is validated against the model on the generated population only']
 ASSUMPTIONS = ['timestamps are whole seconds (exact in binary64)',
                'the clock does not run backwards and check results are not stamped in the future (0 < execution_end <= now); checked by the oracle per step',
                'downtime names are fresh (Downtime::AddDowntime refuses an existing name)',
@@ -311,7 +311,7 @@ def nontrivial(case, impl_lines):
 def classify(case, detail, impl_lines):
     if 'crash' in detail or 'missing-observation' in detail:
         return 'crash'
-    for key in ('pending-flexible', 'lost-start', 'start-at-end-instant'):
+    for key in ('lost-start', 'start-at-end-instant'):
         if 'finding=' + key + ' ' in detail:
             return key
     for part in detail.split():
